@@ -80,6 +80,9 @@ struct Env {
     handles: Vec<Option<Handle>>,
     /// model content per stream path (None = unknown after a failed resize)
     content: BTreeMap<String, Option<Vec<u8>>>,
+    /// content a stream had when set_len failed on it: if the retried set_len returns Ok (and no
+    /// write was accepted in between) the stream must hold this content resized
+    pending_resize: BTreeMap<String, Vec<u8>>,
     strict: bool,
     max_buf: usize,
     version: u16,
@@ -206,11 +209,13 @@ impl Env {
                     Ok(s) => {
                         self.set_handle(*h, Handle { s: ops::NoDropOnPanic::new(s), path: p.clone() });
                         self.content.insert(p.clone(), Some(Vec::new()));
+                        self.pending_resize.remove(p);
                         Ok("created".into())
                     }
                     Err(e) => {
                         // existence and content of the stream are now unknown
                         self.content.insert(p.clone(), None);
+                        self.pending_resize.remove(p);
                         Err(es(e))
                     }
                 }
@@ -316,6 +321,10 @@ impl Env {
                     if k == 0 {
                         return Err("write returned 0".into());
                     }
+                    if !matches!(self.content.get(&path), Some(Some(_))) {
+                        // a write accepted on a stream of unknown content: a later resize proves nothing
+                        self.pending_resize.remove(&path);
+                    }
                     if let Some(Some(m)) = self.content.get_mut(&path) {
                         let end = pos as usize + k;
                         if end > m.len() {
@@ -377,10 +386,18 @@ impl Env {
                     Ok(()) => {
                         if let Some(Some(m)) = self.content.get_mut(&path) {
                             m.resize(*n as usize, 0);
+                        } else if let Some(mut old) = self.pending_resize.remove(&path) {
+                            // the retry of a failed set_len succeeded: nothing accepted earlier may be lost
+                            old.resize(*n as usize, 0);
+                            self.content.insert(path.clone(), Some(old));
                         }
+                        self.pending_resize.remove(&path);
                         Ok("resized".into())
                     }
                     Err(e) => {
+                        if let Some(Some(old)) = self.content.get(&path).cloned() {
+                            self.pending_resize.entry(path.clone()).or_insert(old);
+                        }
                         self.content.insert(path, None);
                         Err(es(e))
                     }
@@ -401,6 +418,7 @@ impl Env {
             WStep::RemoveStream(p) => {
                 let r = self.comp()?.remove_stream(p).map_err(es);
                 self.content.remove(p);
+                self.pending_resize.remove(p);
                 r?;
                 Ok("ok".into())
             }
@@ -446,7 +464,7 @@ impl Env {
 pub fn run_case(c: &FaultCase, base: Option<&(Vec<u8>, BTreeMap<String, Vec<u8>>)>, reference: Option<&[Result<String, String>]>) -> RunLog {
     let ctl = FaultCtl::new();
     let mem = MemFile::new(base.map(|b| b.0.clone()).unwrap_or_default());
-    let mut env = Env { mem, ctl: ctl.clone(), comp: None, handles: Vec::new(), content: BTreeMap::new(), strict: false, max_buf: c.max_buf, version: c.version, structural_fault: false };
+    let mut env = Env { mem, ctl: ctl.clone(), comp: None, handles: Vec::new(), content: BTreeMap::new(), pending_resize: BTreeMap::new(), strict: false, max_buf: c.max_buf, version: c.version, structural_fault: false };
     let truth = if c.read_only { base.map(|b| &b.1) } else { None };
     let plan: BTreeMap<u64, Fault> = c.plan.iter().cloned().collect();
     ctl.arm(plan, true);
